@@ -342,7 +342,85 @@ class Summariser:
         st.closures[node.name] = node
         return [(st, ("normal",))]
 
+    def multi_inline(self, call, st):
+        """`x = self.helper(...)` / `return self.helper(...)` / `Cls.helper(...)` where the helper is a method of the analysed class with several
+        return paths (the single-path case is handled inside e_Call): the caller's path forks, one continuation per exit of the helper, the
+        helper's guards and events recorded one level deeper.  Returns [(state, value term)] or None when the call is not of that kind."""
+        M = self.model
+        f = call.func if isinstance(call, ast.Call) else None
+        if not (isinstance(f, ast.Attribute) and isinstance(f.value, ast.Name)) or st.depth >= self.inline_depth or not self.self_cls:
+            return None
+        meth = f.attr
+        if meth.startswith("_emit") or meth.startswith("_compile") or meth in self.POSITIONAL or meth.startswith("__"):
+            return None
+        if f.value.id == "self" and st.env.get("self", ("param", "self")) == ("param", "self"):
+            fi, bound = M.resolve(self.self_cls, meth), True
+        elif f.value.id == self.self_cls and f.value.id not in st.env:
+            fi, bound = M.resolve(self.self_cls, meth), False
+        else:
+            return None
+        if fi is None or fi.node is self.fi.node or any(isinstance(a, ast.Starred) for a in call.args) or any(k.arg is None for k in call.keywords):
+            return None
+        static = any(isinstance(d, ast.Name) and d.id == "staticmethod" for d in fi.node.decorator_list)
+        if not static and not bound:
+            return None
+        nrets = sum(isinstance(n, ast.Return) for n in ast.walk(fi.node))
+        if nrets < 2:
+            return None
+        probe = st.fork()
+        args = [self.expr(a, probe) for a in call.args]
+        kws = [(k.arg, self.expr(k.value, probe)) for k in call.keywords]
+        a = fi.node.args
+        names = [x.arg for x in a.posonlyargs + a.args]
+        if not static:
+            args = [("param", "self")] + args
+        if len(args) > len(names) or a.vararg or a.kwarg:
+            return None
+        sub = probe.fork()
+        sub.env = dict(self.inline_env(probe))
+        defaults = dict(zip(names[len(names) - len(a.defaults):], a.defaults))
+        for nm in names[len(args):]:
+            if nm in dict(kws):
+                continue
+            if nm not in defaults:
+                return None
+            sub.env[nm] = self.expr(defaults[nm], probe.fork())
+        for nm, v in zip(names, args):
+            sub.env[nm] = v
+        for k, v in kws:
+            sub.env[k] = v
+        saved_fi, saved_cls = self.fi, self.self_cls
+        self.fi, self.self_cls = fi, (fi.cls.name if fi.cls else None)
+        sub.depth += 1
+        try:
+            res = self.block(fi.node.body, sub)
+        except AnalysisError:
+            return None
+        finally:
+            self.fi, self.self_cls = saved_fi, saved_cls
+        out = []
+        for s, o in res:
+            s.env = dict(probe.env)
+            s.depth = probe.depth
+            s.loops, s.trys, s.under = probe.loops, probe.trys, probe.under
+            if o[0] == "raise":
+                self.pending.append((s, o))
+            elif o[0] == "return":
+                out.append((s, o[1]))
+            elif o[0] == "normal":
+                out.append((s, N.NONE))
+            else:
+                return None
+        return out or None
+
     def s_Return(self, node, st):
+        multi = self.multi_inline(node.value, st) if node.value is not None else None
+        if multi:
+            res = []
+            for s, t in multi:
+                self.emit(s, "RETURN", {"value": t}, node)
+                res.append((s, ("return", t)))
+            return res
         t = self.expr(node.value, st) if node.value is not None else N.NONE
         self.emit(st, "RETURN", {"value": t}, node)
         return [(st, ("return", t))]
@@ -374,6 +452,14 @@ class Summariser:
 
     # ---- assignment
     def s_Assign(self, node, st):
+        multi = self.multi_inline(node.value, st)
+        if multi:
+            res = []
+            for s, v in multi:
+                for t in node.targets:
+                    self.assign(t, v, s, node)
+                res.append((s, ("normal",)))
+            return res
         v = self.expr(node.value, st)
         for t in node.targets:
             self.assign(t, v, st, node)
